@@ -48,11 +48,14 @@ const (
 
 			switch {
 			case as && bs:
-				Vec{{$name}}{{short .}}(at, bt)
+				// a op b is computed in a temporary, the operands are not written
+				tmp := []{{asType .}}{at[0]}
+				Vec{{$name}}{{short .}}(tmp, bt)
 				if !is {
-					return e.Add(t, incr, a)
+					AddVS{{short .}}(it, tmp[0])
+					return
 				}
-				it[0]+= at[0]
+				it[0]+= tmp[0]
 			case as && !bs:
 				{{$name}}IncrSV{{short .}}(at[0], bt, it)
 			case !as && bs :
@@ -107,11 +110,13 @@ const (
 		it := incr.{{sliceOf .}}
 		switch {
 		case as && bs:
-			Vec{{$name}}{{short .}}(at, bt)
+			// a op b is computed in a temporary, the operands are not written
+			tmp := []{{asType .}}{at[0]}
+			Vec{{$name}}{{short .}}(tmp, bt)
 			if !is {
-				return e.{{$name}}Iter(t, incr, a, iit, ait)
+				return AddIterVS{{short .}}(it, tmp[0], iit)
 			}
-			it[0] += at[0]
+			it[0] += tmp[0]
 			return
 		case as && !bs:
 			return {{$name}}IterIncrSV{{short .}}(at[0], bt, it, bit, iit)
